@@ -219,6 +219,8 @@ def install(ip, contract, func, allv):
             if inv is None:
                 return NotImpl  # concrete while loops run as they are
         if inv is None:
+            if it is not None and hasattr(it, "lo") and hasattr(it, "hi"):
+                return NotImpl  # bounded unrolling of a symbolic range (finite scope)
             raise EngineError(f"loop #{k} (line {st.lineno}) of {func.qualname} iterates over data of unknown length and has no invariant")
         occ = state["count"].get(k, 0)
         state["count"][k] = occ + 1
